@@ -292,6 +292,20 @@ def run(ctx):
     attr_rule.scan(prog, fns, ob_attr)
     ctx.extra["resume_call_tree_functions"] = len(fns)
     ctx.require(len(fns) >= 60, f"resume call tree unexpectedly small ({len(fns)} functions)")
+    # ---- C12.6 fixed-width batching covers every row (R-COVER) ----------------------------------------------------------
+    # a density table that is evaluated / re-derived in batches must evaluate the last partial batch as well: rows that
+    # are skipped keep the buffer's initial value, which is finite and plausible, so nothing fails
+    from ..rules import cover as _cover
+    ctx.require(_cover.self_check(), "R-COVER fixtures: the floor-division batching example is not reported / the rounding-up twin is")
+    n_loops_, cov_ = _cover.scan(prog)
+    ctx.ob("R-COVER", "C12.6", "nessai", f"every `for j in range(K)` loop over fixed-width slices [j*B:(j+1)*B] was examined ({n_loops_} for-loops in the package, {len(cov_)} batching loops; fixtures re-decided)", True, "")
+    for f_, loop_, ok_, why_ in cov_:
+        ctx.ob("R-COVER", "C12.6", f_, "fixed-width batches cover the whole array (the number of batches rounds up, or the remainder is processed)", ok_, why_, node=loop_)
+    lpa_ = ctx.fn(tables.IFM + ".log_prob_all")
+    st_ = [s_ for s_ in walk_no_nested(lpa_.node) if isinstance(s_, ast.Assign) and isinstance(s_.targets[0], ast.Subscript) and isinstance(s_.targets[0].slice, ast.Tuple) and len(s_.targets[0].slice.elts) == 2]
+    full_ = [s_ for s_ in st_ if isinstance(s_.targets[0].slice.elts[0], ast.Slice) and s_.targets[0].slice.elts[0].lower is None and s_.targets[0].slice.elts[0].upper is None]
+    ctx.ob("R-COVER", "C12.6", lpa_, "log_prob_all fills one column per saved flow: whole columns at once, or in batches decided above", bool(st_) and (len(full_) == len(st_) or any(f_ is lpa_ for f_, _l, _o, _w in cov_)), f"{[src(s_)[:60] for s_ in st_]}")
+    ctx.floor("C12.6", 2)
     ctx.assumptions += ["pickle restores every attribute not named in __getstate__ bit-for-bit", "observational equality of result-bearing fields after resume is not decided (needs a run)"]
 
 
